@@ -410,6 +410,21 @@ SCALING_SHAPES = [
     ("trailer-many", lambda n: b"POST / HTTP/1.1\r\nTransfer-Encoding: chunked\r\n\r\n0\r\n" + b"T: v\r\n" * (n // 6) + b"\r\n"),
     ("leading-crlf", lambda n: b"\r\n" * (n // 2) + b"GET / HTTP/1.1\r\n\r\n"),
     ("many-chunks", lambda n: b"POST / HTTP/1.1\r\nTransfer-Encoding: chunked\r\n\r\n" + b"1\r\na\r\n" * (n // 6) + b"0\r\n\r\n"),
+    # long elements that do NOT match in the end (a regular expression that backtracks shows only on failure)
+    ("rline-authority-bad-version", lambda n: b"GET a://" + b"b" * n + b" HTTP/1.1X\r\n\r\n"),
+    ("rline-authority-digits-bad", lambda n: b"GET a://" + b"1" * n + b" x\r\n\r\n"),
+    ("rline-authority-colons-bad", lambda n: b"GET a://" + b"b:1" * (n // 3) + b" HTTP/1.1 \r\n\r\n"),
+    ("rline-path-bad-version", lambda n: b"GET /" + b"a" * n + b" HTTP/1.1X\r\n\r\n"),
+    ("rline-schemes-bad", lambda n: b"GET " + b"a://" * (n // 4) + b" HTTP/1.\r\n\r\n"),
+    ("rline-method-long-bad", lambda n: b"G" * n + b"\x01 / HTTP/1.1\r\n\r\n"),
+    ("header-name-long-bad", lambda n: b"GET / HTTP/1.1\r\n" + b"N" * n + b"\x01: v\r\n\r\n"),
+    ("header-value-bad-end", lambda n: b"GET / HTTP/1.1\r\nX: " + b"v" * n + b"\x00\r\n\r\n"),
+    ("header-value-ws-bad-end", lambda n: b"GET / HTTP/1.1\r\nX: " + b"v \t" * (n // 3) + b"\x00\r\n\r\n"),
+    ("chunk-size-hex-bad", lambda n: b"POST / HTTP/1.1\r\nTransfer-Encoding: chunked\r\n\r\n" + b"f" * n + b"g\r\nabc\r\n0\r\n\r\n"),
+    ("chunk-ext-long-bad", lambda n: b"POST / HTTP/1.1\r\nTransfer-Encoding: chunked\r\n\r\n3" + b";a=b" * (n // 4) + b";=\r\nabc\r\n0\r\n\r\n"),
+    ("cl-digits-bad", lambda n: b"POST / HTTP/1.1\r\nContent-Length: " + b"0" * n + b"x\r\n\r\nabc"),
+    ("te-list-bad", lambda n: b"POST / HTTP/1.1\r\nTransfer-Encoding: " + b"a, " * (n // 3) + b"\x01\r\n\r\n"),
+    ("trailer-long-bad", lambda n: b"POST / HTTP/1.1\r\nTransfer-Encoding: chunked\r\n\r\n0\r\nT:" + b" " * n + b"\x01\r\n\r\n"),
 ]
 
 
